@@ -342,7 +342,12 @@ def output_case(spec):
         for i in range(spec["random_kills"]):
             harness.fresh(dump)
             delay = krng.uniform(0, dur * 1.1)
-            pr = subprocess.Popen(argv, stdout=subprocess.DEVNULL, stderr=subprocess.DEVNULL)
+            # private copy of the index for every kill: a kill while LevelDB rewrites its own files must not
+            # influence the next run
+            dk = os.path.join(work, "dk")
+            shutil.rmtree(dk, ignore_errors=True)
+            datadir.clone_datadir(d, dk)
+            pr = subprocess.Popen(harness.cli(binary, dk, coin, cbname, dump), stdout=subprocess.DEVNULL, stderr=subprocess.DEVNULL)
             _time.sleep(delay)
             pr.kill()
             rc = pr.wait()
